@@ -142,10 +142,21 @@ def exclChk (r : Res) (len : Nat) : Except Abort Bool :=
   | .oof => .error .oof
   | .gerr => .error .gerr
 
+/-- the `exclude(match)` closure of `Rule.lparse`; `sub text x` runs the excluded rule `x` on `text` -/
+def ruleKeep (sub : List Nat → Nat → Res) (excl : Option Nat) (m : Match) : Except Abort Bool :=
+  match excl with
+  | none => .ok true
+  | some x => exclChk (sub m.text x) m.text.length
+
 def wrapRule (name : String) (ms : List Match) : Res :=
   let kept := dedup ms []
   if kept.isEmpty then .fail
   else .ok (kept.map (fun m => ⟨[.node name m.nodes], m.stop⟩))
+
+/-- de-duplicate, wrap under the rule's name, or propagate an abnormal outcome of the exclusion test -/
+def ruleFinish (name : String) : Except Abort (List Match) → Res
+  | .error a => a.toRes
+  | .ok kept => wrapRule name kept
 
 def lparse (G : Grammar) : Nat → Src → Expr → Nat → Res
   | 0, _, _, _ => .oof
@@ -166,11 +177,8 @@ def lparse (G : Grammar) : Nat → Src → Expr → Nat → Res
         | some d =>
           match lparse G f s d i with
           | .ok ms =>
-            match filtOpt (fun m => match info.excl with
-                | none => .ok true
-                | some x => exclChk (lparse G f m.text (.ref x) 0) m.text.length) ms [] with
-            | .error a => a.toRes
-            | .ok kept => wrapRule info.name kept
+            ruleFinish info.name
+              (filtOpt (ruleKeep (fun t x => lparse G f t (.ref x) 0) info.excl) ms [])
           | r => r
 
 /-- outcome of `Rule.parse` -/
